@@ -15,11 +15,13 @@ def offer(entry, tr, b, v, o, L=2, tier="quick"):
       dims=dict(L=L, vector=v, offered=o, entry=entry, backend=b, traits=tr, shape_symbolic=True), role="c04_offer_%s" % entry.lower())
 
 
-def splice_t(tr, b, v, o, L=2, tier="quick"):
-    name = "c04_splice__%s_%s_%s_gets_%s__L%d" % (tr, b, v, o, L)
-    call = "c04::splice_type::<%s, %s, %s, %s>(%s)" % (TR[tr], bk(b, v, L + 3), v, OFF[o], P2(L + 3, "s%d" % L, "s%d" % L, "s%d" % L, 0, "s2"))
+def splice_t(tr, b, v, o, L=2, tier="quick", shape=(2, 0, 1), n=1):
+    """concrete (len, start, end) and number of good items before the mismatching one (allocation sizes stay constant)"""
+    ln, s, e = shape
+    name = "c04_splice__%s_%s_%s_gets_%s__l%d_s%d_e%d_n%d" % (tr, b, v, o, ln, s, e, n)
+    call = "c04::splice_type::<%s, %s, %s, %s>(%s)" % (TR[tr], bk(b, v, L + 3), v, OFF[o], P2(L + 3, ln, s, e, 0, n))
     H(name, call, ["C04"], tier=tier, unwind=unwind_for(v, L + 4), expect=[X_TYPE], must_panic=True,
-      dims=dict(L=L, vector=v, offered=o, good_items_before="0..=2", backend=b, traits=tr, shape_symbolic=True), role="c04_splice")
+      dims=dict(len=ln, start=s, end=e, vector=v, offered=o, good_items_before=n, backend=b, traits=tr, shape_symbolic=False, payloads_symbolic=True), role="c04_splice")
 
 
 def swap_t(pair, tr, b, v, o, L=2, tier="quick"):
@@ -56,8 +58,9 @@ def define():
     offer("PushRaw", "none", "heap", "W8", "W8")
     offer("InsertHandle", "none", "stack", "W8D", "W8D")
     offer("InsertWrapper", "none", "heap", "B3D", "B3D")
-    splice_t("none", "heap", "W8D", "W8")
-    splice_t("none", "stack", "W8", "u64")
+    splice_t("none", "heap", "W8D", "W8", shape=(2, 0, 1), n=1)
+    splice_t("none", "stack", "W8", "u64", shape=(2, 1, 2), n=0)
+    splice_t("none", "heap", "B3D", "B1", shape=(1, 1, 1), n=2, tier="rot2")
     for i, pair in enumerate(PAIRS):
         v, o = q[(i + 2) % len(q)]
         swap_t(pair, "none", "heap" if i % 2 else "stack", v, o)
@@ -74,7 +77,9 @@ def define():
             for entry in ENTRIES:
                 offer(entry, "none", "heap", v, o, tier="thorough" if (v in ("W8", "W8D") and o in SAME8) else "rot16")
             down("none", "heap", v, o, tier="thorough")
-            splice_t("none", "heap", v, o, tier="thorough") if v != o else None
+            if v != o:
+                for sh, n in (((2, 0, 1), 1), ((2, 2, 2), 0), ((1, 0, 1), 2)):
+                    splice_t("none", "heap", v, o, tier="thorough" if (v in ("W8", "W8D") and o in SAME8) else "rot32", shape=sh, n=n)
             for pair in PAIRS:
                 swap_t(pair, "none", "heap", v, o, tier="thorough" if (v in ("W8", "W8D") and o in SAME8 + ["W8D"]) else "rot16")
     for tr in ("clone", "call"):
